@@ -742,8 +742,10 @@ func (x *exec) checkApp() {
 func (x *exec) judgeRead(rd *rcall, res rres) {
 	if res.err == nil {
 		x.tok("r-data")
-		if rd.startedClosed {
-			x.fail("close:readfrom-after-close-returned-data", "ReadFrom called after Close returned %q from %s with nil error", res.data, res.from)
+		if rd.startedClosed && len(x.m.queue) == 0 {
+			// Handing out a payload that was already queued when Close was called is compatible with
+			// "honours Close" (the call returns, nothing blocks); inventing data is not.
+			x.fail("close:readfrom-after-close-returned-data", "ReadFrom called after Close returned %q from %s with nil error and nothing was queued", res.data, res.from)
 
 			return
 		}
